@@ -37,7 +37,7 @@ SRC = os.path.join(vlib.REPO, "ufl", "algorithms", "check_arities.py")
 # handler definitions of ArityChecker that the model knows (name -> hkind of C14_model.v)
 KNOWN_HANDLERS = {
     "terminal": "H_terminal", "argument": "H_argument", "nonlinear_operator": "H_nonlinear",
-    "sum": "H_sum", "division": "H_division", "product": "H_product", "inner": "H_inner",
+    "sum": "H_sum", "division": "H_division", "product": "H_product", "inner": "H_inner", "dot": "H_dot",
     "outer": "H_outer", "linear_operator": "H_linear", "conj": "H_conj", "variable": "H_variable",
     "conditional": "H_conditional", "linear_indexed_type": "H_indexed", "list_tensor": "H_list_tensor",
 }
@@ -499,5 +499,5 @@ def main(run):
              "two obligations per case (arity tuple, check verdict) + one per node class (dispatch) + hand-written theorems",
         assumptions=["linearity is joint in all Arguments of one number (parts of a mixed space belong together)",
                      "scalars a with D(a*x) = a*D(x) (constants)",
-                     "C14_sound is proved under the guards lt_ok/dot_ok; the two excluded classes are genuine defects "
-                     "(known/C14.json), shown by C14_sound_refuted / C14_dot_refuted"])
+                     "the two former findings (list tensor with constant component, dot booked as conjugating) are fixed in "
+                     "/repo; the model follows the repaired handlers and C14_sound holds without guards"])
